@@ -662,7 +662,7 @@ fn block_step_body<const OFF: usize>(left: u8, right: u8) {
         assert_eq!(l, e_l);
         assert_eq!(r, e_r);
     }
-    kani::cover!(exp.is_some() && in_str && l0 > r0);
+    kani::cover!(exp.is_some() && in_str);
     kani::cover!(exp.is_none() && e_in && e_esc);
     kani::cover!(exp.is_none() && e_l > l0 + 2 && e_r > r0 + 1);
 }
@@ -754,16 +754,16 @@ fn windowed<const N: usize, const W: usize>(off: usize, fill: u8) -> [u8; N] {
     d
 }
 
-/// C02/C09/C14 B-skip_string: 40-byte buffer after the opening quote, symbolic window of 10
-/// bytes at offsets 24..34 (straddling the 32-byte block edge), a closing quote at 38.
+/// C02/C09/C14 B-skip_string: 38-byte buffer after the opening quote, symbolic window of 6
+/// bytes at offsets 29..35 (straddling the 32-byte block edge), a closing quote at 36.
 #[kani::proof]
-#[kani::unwind(4)]
+#[kani::unwind(3)]
 #[kani::stub(crate::error::Error::syntax, crate::error::verif_kani_error::syntax_cut)]
 #[kani::stub(core::arch::x86_64::_mm_max_epu8, crate::verif_kmodels::mm_max_epu8)]
-fn b_skip_string_w24() {
-    const N: usize = 40;
-    let mut buf = windowed::<N, 10>(24, b'x');
-    buf[38] = b'"';
+fn b_skip_string_w29() {
+    const N: usize = 38;
+    let mut buf = windowed::<N, 6>(29, b'x');
+    buf[36] = b'"';
     let mut p = mk(&buf[..]);
     let r = p.skip_string();
     let expect = ref_string_end(&buf, N, 0);
@@ -775,7 +775,7 @@ fn b_skip_string_w24() {
         (Err(_), None) => {}
         _ => panic!("skip_string (block path): accept/reject differs from the RFC 8259 string grammar"),
     }
-    kani::cover!(matches!(&r, Ok(ParseStatus::HasEscaped)) && p.read.index() == 39);
+    kani::cover!(matches!(&r, Ok(ParseStatus::HasEscaped)) && p.read.index() == 37);
     kani::cover!(r.is_ok() && p.read.index() == 33);
     kani::cover!(r.is_err() && buf[31] == b'\\');
     core::mem::forget(r);
@@ -810,16 +810,16 @@ fn b_skip_string_unchecked_w27() {
     core::mem::forget(r);
 }
 
-/// C02/C14/C08 B-skip_number: 72-byte buffer of digits with a 10-byte symbolic window at 29..39
-/// (the lanes around the end of the first 32-byte chunk, which starts at index 2) and a
-/// terminating comma at 70: accept/reject and stop index equal the number grammar.
+/// C02/C14/C08 B-skip_number: 66-byte buffer of digits with a 6-byte symbolic window at 30..36
+/// (lanes 28..31 of the first 32-byte chunk, which starts at index 2, and 0..1 of the next) and
+/// a terminating comma at 44: accept/reject and stop index equal the number grammar.
 #[kani::proof]
-#[kani::unwind(4)]
+#[kani::unwind(3)]
 #[kani::stub(crate::error::Error::syntax, crate::error::verif_kani_error::syntax_cut)]
-fn b_skip_number_w29() {
-    const N: usize = 72;
-    let mut buf = windowed::<N, 10>(29, b'1');
-    buf[70] = b',';
+fn b_skip_number_w30() {
+    const N: usize = 66;
+    let mut buf = windowed::<N, 6>(30, b'1');
+    buf[44] = b',';
     let mut p = mk(&buf[..]);
     p.read.eat(1);
     let r = p.do_skip_number(buf[0]);
@@ -829,9 +829,37 @@ fn b_skip_number_w29() {
         (Err(_), None) => {}
         _ => panic!("do_skip_number (block path): accept/reject differs from the RFC 8259 number grammar"),
     }
-    kani::cover!(r.is_ok() && p.read.index() == 70 && buf[32] == b'.');
-    kani::cover!(r.is_ok() && p.read.index() == 70 && buf[33] == b'.' && buf[36] == b'E');
+    kani::cover!(r.is_ok() && p.read.index() == 44 && buf[32] == b'.');
+    kani::cover!(r.is_ok() && p.read.index() == 44 && buf[31] == b'.' && buf[34] == b'E');
     kani::cover!(r.is_err() && buf[32] == b'.' && buf[34] == b'.');
-    kani::cover!(r.is_ok() && p.read.index() < 40);
+    kani::cover!(r.is_ok() && p.read.index() < 36);
+    core::mem::forget(r);
+}
+
+/// C10/C12/C13 B-skip_string_unchecked (block then scalar tail): 40-byte buffer, window at
+/// 27..37, closing quote at 38: the escape carry must survive from the 32-byte block into the
+/// scalar tail.
+#[kani::proof]
+#[kani::unwind(4)]
+#[kani::stub(crate::error::Error::syntax, crate::error::verif_kani_error::syntax_cut)]
+fn b_skip_string_unchecked_tail_w27() {
+    const N: usize = 40;
+    let mut buf = windowed::<N, 10>(27, b'x');
+    buf[38] = b'"';
+    let end = ref_string_end(&buf, N, 0);
+    kani::assume(end.is_some());
+    let end = end.unwrap();
+    let mut p = mk(&buf[..]);
+    let r = unsafe { p.skip_string_unchecked() };
+    match &r {
+        Ok(st) => {
+            assert_eq!(p.read.index(), end);
+            assert_eq!(*st == ParseStatus::HasEscaped, ref_has_backslash(&buf, 0, end));
+        }
+        Err(_) => panic!("skip_string_unchecked (block + tail) rejects a well-formed literal"),
+    }
+    kani::cover!(end == 39 && buf[31] == b'\\' && buf[32] == b'"');
+    kani::cover!(end == 39 && buf[30] == b'\\' && buf[31] == b'\\');
+    kani::cover!(end < 34);
     core::mem::forget(r);
 }
